@@ -20,7 +20,7 @@ MODE = hx.sel("VB_MODE", "create")                               # create | upda
 NARR = hx.bound("VB_NARR", 2)
 SECOND = hx.sel("VB_SECOND", "")                                 # fixes the 2nd arrival in 3-arrival runs: "src" (differs in source) | "same"
 NATURAL = hx.sel("VB_NATURAL", "0") == "1"                       # a feature with the natural id x_1 arrives first
-VALS = ("p", "q", "x_1")
+VALS = ("p", "q", "x_1", "x")      # "x" also occurs as the ID value: the same string under two attribute keys
 PARS = (None, "P1", "P2")
 _GTF = dict(constants.dialect)
 _GTF.update({"fmt": "gtf", "field separator": "; ", "keyval separator": " ", "quoted GFF2 values": True, "trailing semicolon": True})
